@@ -119,14 +119,16 @@ Fragile(M, A, s) ==
       \/ \E e \in ents : REq(val(e), RAdd(M[e[2]][e[1]], SVal(s, val(e)))))
 
 (* the same with stage-1 inexactness X[a][b] (InexactMatrix): an entry computed through non-dyadic intermediates *)
-(* counts as inexact even if its exact value is dyadic                                                          *)
+(* counts as inexact even if its exact value is dyadic.  Two equal entries are fragile only if one of them is   *)
+(* inexact (entries are compared with each other as they are); the distillation function enters the comparisons *)
+(* of the second and third kind only, where a margin s(x) > 0 separates equal entries robustly                   *)
 FragileX(M, X, A, s) ==
   LET ents == Pairs(A)
       val(e) == M[e[1]][e[2]]
       inex(e) == ~RIsDyadic(val(e)) \/ X[e[1]][e[2]]
       sdy == RIsDyadic(s.a) /\ RIsDyadic(s.b)
   IN ((\E e \in ents : inex(e)) \/ ~sdy) /\
-     (\/ \E e \in ents : \E f \in ents : e # f /\ REq(val(e), val(f)) /\ (inex(e) \/ inex(f) \/ ~sdy)
+     (\/ \E e \in ents : \E f \in ents : e # f /\ REq(val(e), val(f)) /\ (inex(e) \/ inex(f))
       \/ \E e \in ents : \E f \in ents : REq(val(e), RSub(val(f), SVal(s, val(f)))) /\ ~RIsZero(SVal(s, val(f)))
       \/ \E e \in ents : REq(val(e), RAdd(M[e[2]][e[1]], SVal(s, val(e)))))
 
